@@ -113,3 +113,37 @@ Theorem C05_simple_select_types_partial : forall (e : env) (strict deep : bool) 
   end.
 Proof. exact simple_select_refines_t. Qed.
 Print Assumptions C05_simple_select_types_partial.
+
+(** ** the Go side (Model/GoGen.v = result.go buildQueries, compared exactly with the generator's own
+    values through the verif hook on every case of the C01 check) *)
+From Verif Require Import Model.GoGen Proofs.GoGenFacts.
+
+(** whatever a query returns - the single value, a fresh Row struct or a reused model struct - its Go
+    types are, in order, goType of the query's result columns (which C05_*_partial above tie to the
+    catalog column): the last hop of "result types track the column" *)
+Theorem C05_go_result_types_partial : forall st c structs name cols v,
+  build_ret st c structs name cols = Ok v ->
+  (forall col, In col cols -> go_type_of st c col <> "") ->
+  ret_types_of v = map (go_type_of st c) cols.
+Proof. exact ret_types_are_column_types. Qed.
+Print Assumptions C05_go_result_types_partial.
+
+(** the model-type clause, soundness: a method returns a table's model struct only if its columns are,
+    position by position, that table's fields - same Go-cased name, same Go type, and each column
+    really belongs to that table *)
+Theorem C05_model_struct_reuse_sound_partial : forall st c structs name cols v s,
+  build_ret st c structs name cols = Ok v -> vo_emit v = false -> vo_struct v = Some s ->
+  In s structs /\ List.length (gst_fields s) = List.length cols
+  /\ forall k f col, nth_error (gst_fields s) k = Some f -> nth_error cols k = Some col ->
+       field_name f = struct_name_r st (column_name col k)
+       /\ field_type f = go_type_of st c col
+       /\ same_table c col (gst_table s) = true.
+Proof. exact reuse_sound. Qed.
+Print Assumptions C05_model_struct_reuse_sound_partial.
+
+Example C05_reuse_non_vacuous :
+  build_ret gg_st gg_cat gg_structs "Get" [gg_col "id" "pg_catalog.int4" true; gg_col "bio" "text" false]
+    = Ok (mkVO false "i" "" (Some (mkGSt "Author" ("public", "authors") [("ID", "int32", ""); ("Bio", "sql.NullString", "")])))
+  /\ build_ret gg_st gg_cat gg_structs "Get" [gg_col "bio" "text" false; gg_col "id" "pg_catalog.int4" true]
+    = Ok (mkVO true "i" "" (Some (mkGSt "GetRow" ("", "") [("Bio", "sql.NullString", ""); ("ID", "int32", "")]))).
+Proof. exact reuse_example. Qed.
